@@ -531,6 +531,11 @@ func (s *Translator) Exit(expression cypher.SyntaxNode) {
 			s.SetError(err)
 		} else if err := RewriteFrameBindings(s.scope, lookupExpression); err != nil {
 			s.SetError(err)
+		} else if isConstantSortKey(lookupExpression) {
+			// A constant sort key orders nothing in Cypher. In SQL a bare integer constant in ORDER BY is an
+			// output column position and any other constant is an error, so the key is dropped.
+			currentPart := s.query.CurrentPart()
+			currentPart.SortItems = currentPart.SortItems[:len(currentPart.SortItems)-1]
 		} else {
 			if propertyLookup, isPropertyLookup := expressionToPropertyLookupBinaryExpression(lookupExpression); isPropertyLookup {
 				// If sorting, use the raw type of the JSONB field
@@ -696,6 +701,25 @@ func (s *Translator) Exit(expression cypher.SyntaxNode) {
 			s.SetError(err)
 		}
 	}
+}
+
+// isConstantSortKey reports whether a translated sort key is what PostgreSQL's grammar folds into a bare
+// constant: a literal, or a negated literal.
+func isConstantSortKey(expression pgsql.Expression) bool {
+	switch typedExpression := expression.(type) {
+	case pgsql.Literal:
+		return true
+
+	case *pgsql.UnaryExpression:
+		if typedExpression.Operator == pgsql.OperatorSubtract || typedExpression.Operator == pgsql.OperatorAdd {
+			return isConstantSortKey(typedExpression.Operand)
+		}
+
+	case *pgsql.Parenthetical:
+		return isConstantSortKey(typedExpression.Expression)
+	}
+
+	return false
 }
 
 type Result struct {
